@@ -27,3 +27,33 @@ Definition epoch_page_run (i : Z * Z * Z) : list Z := let '(last, index, size) :
 
 Definition GetRange18_run (i : Z * Z * Z) : Z * Z := let '(a, b, c) := i in GetRange a b c.
 Definition zz18_eqb (a b : Z * Z) : bool := (fst a =? fst b) && (snd a =? snd b).
+
+(* ---- JSON-RPC server: documents of one connection -> reply documents (RpcMsg.v) *)
+From ZV Require Import RpcMsg.
+Definition rpc_session_run (i : Transport * list Doc) : list ReplyDoc :=
+  match handle_session (fst i) (snd i) with
+  | RpcPanic => [(true, [(-99, -99)])]      (* never equal to an observation *)
+  | Replies l => l
+  end.
+(* expected vs observed reply: same id; kind_ran = a result or an error of the callback (not one of the server's
+   own refusals), kind_any = any answer to the call *)
+Definition reply_eqb (e o : Reply) : bool :=
+  (fst e =? fst o) &&
+  (if snd e =? kind_ran then negb (snd o =? code_parse) && negb (snd o =? code_invalid_request) &&
+                              negb (snd o =? code_method_not_found) && negb (snd o =? code_invalid_params)
+   else if snd e =? kind_any then negb (snd o =? code_parse) && negb (snd o =? code_invalid_request)
+   else snd e =? snd o).
+Definition replydoc_eqb (e o : ReplyDoc) : bool := Bool.eqb (fst e) (fst o) && list_eqb reply_eqb (snd e) (snd o).
+(* calls of different documents run on their own goroutines: the reply documents of a connection are compared as a
+   multiset *)
+Fixpoint take_match (e : ReplyDoc) (seen os : list ReplyDoc) (k : list ReplyDoc -> bool) : bool :=
+  match os with
+  | [] => false
+  | o :: r => (replydoc_eqb e o && k (rev_append seen r)) || take_match e (o :: seen) r k
+  end.
+Fixpoint perm_match (es os : list ReplyDoc) : bool :=
+  match es with
+  | [] => match os with [] => true | _ => false end
+  | e :: r => take_match e [] os (perm_match r)
+  end.
+Definition rpc_session_eqb (model observed : list ReplyDoc) : bool := perm_match model observed.
